@@ -54,6 +54,9 @@ CHECKS = {
  "C08": ("model_checking", "TLC model checking of the Printer/builder spec on redactables produced by the model itself (print -> reprint -> join -> reprint) + replay + relational judge on the real code",
    "The set of redactables is generated inside TLC by running the printer model on every short payload, then closed under re-printing in every shape/verb, concatenation and joining; identity and distribution laws are invariants; the real code must match byte for byte and satisfy the placeholder-substitution relation.",
    "DESIGN.md 6/C08", "none beyond the harness"),
+ "C12": ("model_checking", "TLC model checking of the Pool spec (all interleavings of printer lifetimes) + TLC-generated behaviours replayed as call histories with probes + TLC trace validation of recorded pool events + Go race detector for the race clause",
+   "The pool protocol (what newPrinter re-initialises, what free clears, who owns the backing array) is model-checked over all interleavings; behaviours generated by TLC drive the real library and 21 probes are compared with a fresh process; the get/put/drop events of those runs and of a 16-goroutine stress run are validated by TLC; seeded model defects and corrupted events are detected (controls).",
+   "DESIGN.md 6/C12, 8", "sync.Pool itself and the Go race detector are trusted"),
 }
 
 NOT_YET = {
